@@ -558,3 +558,43 @@ def r_lossy(run, F, rule="R-LOSSY"):
                 run.ob(rule, "%s: no rejecting / unchecked text conversion" % path.split("::", 2)[-1], False,
                        "call of %s: undecodable text must be replaced, not rejected (and never trusted)" % c, site(body, x), key="%s|%s|%s" % (rule, path, c))
     return n
+
+
+def r_reject(run, F, rule="R-REJECT"):
+    """Census of explicit rejection sites in the parser / reader / decoder against tables/rejects.json."""
+    import os
+    from .engine import VERIF, load_json
+    from . import guardrules as gr
+    T = load_json(os.path.join(VERIF, "tables", "rejects.json"))["allowed"]
+    g = gr.call_graph(F)
+    pc = gr.cone(g, gr.PARSE_ROOTS)
+    core = sorted(f for f in pc if f.startswith(("ipp::parser::", "ipp::reader::", "ipp::value::IppValue::parse", "ipp::value::get_len_string")) or
+                  (f.startswith("ipp::value::") and F.hir[f]["kind"] == "Fn"))
+
+    def head(t):
+        if t[0] == "ctor" and t[2]:
+            x = t[2][0]
+            if x[0] in ("ctor", "call"):
+                return x[1]
+            return tshow(x)[:60]
+        return tshow(t)[:60]
+    n = 0
+    for fn in core:
+        b = F.hir[fn]
+        if b.get("from_expansion"):
+            continue
+        cen = {}
+        for p in paths_of(b):
+            if p.kind == "try":
+                continue
+            r = p.ret
+            if r[0] == "ctor" and r[1].endswith("::Err"):
+                cen.setdefault(head(r), set()).add(" && ".join(cshow(c) for c in p.conds[-1:])[:160])
+        allowed = T.get(fn, {})
+        for h, conds in cen.items():
+            n += 1
+            lim = allowed.get(h, [0, ""])[0]
+            run.ob(rule, "%s: rejections with %s are the reviewed ones" % (fn.split("::", 1)[-1], h.split("::")[-1]), len(conds) <= lim,
+                   "%d distinct condition(s) lead to Err(%s) here, %d reviewed: %s - an unreviewed rejection may refuse well-formed input" % (len(conds), h, lim, sorted(conds)[:4]),
+                   site(b), key="%s|%s|%s" % (rule, fn, h))
+    return n
